@@ -38,6 +38,12 @@
 (* its own thread: the entry is closed field by field (EmitRead(s) takes   *)
 (* slot s with try_recv semantics) and then appended (EmitAppend).          *)
 (*                                                                         *)
+(* Looking at a guard (Debug-formatting a FlushGuard, an OnParentDrop or a  *)
+(* SlotGuard, which may briefly take the GuardInner mutex) is a stuttering *)
+(* step: no action here (an always-enabled stutter would hide a drop that  *)
+(* can never finish from the deadlock check); the free-running "observer"  *)
+(* scenarios and the Observe event of KeepAliveTrace.tla cover it.          *)
+(*                                                                         *)
 (* PROPERTY LAYER (bottom of the module): formulas over                    *)
 (* started/ended drops, the number of appends and the appended content -   *)
 (* nothing else.  TLC checks them for every interleaving.                  *)
